@@ -3,13 +3,14 @@
                               slice::sort_by is a stable sort that only asks `is_less`, so the result is the stable sort by `precedes`
                               whenever `precedes` is a strict weak order on the items (for other relations Rust leaves the result open).
                               Modelled as the stable insertion sort that C08/Model.v uses for numbers (ninsert / nsort), for any relation.
-   stddev(list)               core.rs stddev: two loops (sum, squared deviations), every operation rounded to 34 digits; the square root
-                              is an argument of the model (decNumber's dec_square_root is not modelled).
+   stddev(list)               core.rs stddev: two loops (sum, squared deviations) over the shared decimal128 layer Base/DecRound.v
+                              (C08/Model.v nadd / nsub / ndiv / nsqrt, nsquare for decNumberPower(x, 2)).
    split / replace / matches  on LITERAL patterns (no metacharacters, no flags): the regular expression is a plain substring search,
                               leftmost non-overlapping occurrences.  replace_lit is the specified value; the code additionally trims the
                               result (known finding replace-trim), modelled by replace_lit_impl.
    No proofs here. *)
 From Coq Require Import List NArith ZArith Bool Arith.
+From DV Require Import Base.DecRound.
 From DV Require Import C09.Values C09.Model C08.Model.
 Import ListNotations.
 Open Scope Z_scope.
@@ -36,35 +37,33 @@ Definition nlt (a b : Z * Z) : bool := is_lt (ncmp (fst a) (snd a) (fst b) (snd 
 Definition neqv (a b : Z * Z) : bool := is_eq (ncmp (fst a) (snd a) (fst b) (snd b)).
 
 (* ---------------- stddev ---------------- *)
-(* rounding of an exact result to 34 significant digits, half-even (decNumber context of FeelNumber) *)
-Definition nround (a : Z * Z) : Z * Z :=
-  let '(c, e) := round34 (Z.abs (fst a)) false (snd a) in ((if fst a <? 0 then - c else c), e).
-Definition nneg (a : Z * Z) : Z * Z := (- fst a, snd a).
-Definition nmul (a b : Z * Z) : Z * Z := (fst a * fst b, snd a + snd b).
-Definition radd (a b : Z * Z) : Z * Z := nround (nadd a b).
-Definition rsub (a b : Z * Z) : Z * Z := nround (nadd a (nneg b)).
-Definition rsquare (a : Z * Z) : Z * Z := nround (nmul a a).
-
-Section Stddev.
-Variable sqrt : Z * Z -> option (Z * Z).      (* FeelNumber::sqrt: None = not finite *)
-(* first loop: the sum and the numbers, None at the first item that is not a number *)
-Fixpoint stddev_collect (vs : list value) (sum : Z * Z) (numbers : list (Z * Z)) : option ((Z * Z) * list (Z * Z)) :=
+(* core.rs stddev, every operator being the decimal128 operation of Base/DecRound.v followed by `reduced` (C08/Model.v nadd / nsub /
+   ndiv / nsqrt; nsquare = FeelNumber::square = decNumberPower(x, 2), two roundings: 37 digits, then 34):
+     sum = 0; for x: sum += x;  n = count;  avg = sum / n;  sum2 = 0; for x: sum2 += (x - avg).square()?;  (sum2 / (n - 1)).sqrt()?
+   A step that leaves the number range makes the result null: an infinite sum makes (x - avg).square() not finite, an infinite
+   sum2 makes the square root not finite, and both `?` return null. *)
+(* first loop: the running sum and the numbers, None at the first item that is not a number *)
+Fixpoint stddev_collect (vs : list value) (sum : option (Z * Z)) (numbers : list (Z * Z)) : option (option (Z * Z) * list (Z * Z)) :=
   match vs with
   | [] => Some (sum, numbers)
-  | VNum c e :: r => stddev_collect r (radd sum (c, e)) (numbers ++ [(c, e)])
+  | VNum c e :: r => stddev_collect r (nadd_opt sum (c, e)) (numbers ++ [(c, e)])
   | _ :: _ => None
   end.
+(* one turn of the second loop *)
+Definition add_square_dev (avg : Z * Z) (sum2 : option (Z * Z)) (x : Z * Z) : option (Z * Z) :=
+  obind sum2 (fun s => obind (nsub x avg) (fun d => obind (nsquare d) (fun q => nadd s q))).
 (* the value under the square root *)
-Definition stddev_radicand (sum : Z * Z) (numbers : list (Z * Z)) : Z * Z :=
+Definition stddev_radicand (sum : option (Z * Z)) (numbers : list (Z * Z)) : option (Z * Z) :=
   let n := (zlen numbers, 0) in
-  let avg := ndiv sum n in
-  let sum2 := fold_left (fun s x => radd s (rsquare (rsub x avg))) numbers (0, 0) in
-  ndiv sum2 (rsub n (1, 0)).
+  obind sum (fun s =>
+  obind (ndiv s n) (fun avg =>
+  obind (fold_left (add_square_dev avg) numbers (Some (0, 0))) (fun sum2 =>
+  obind (nsub n (1, 0)) (fun n1 => ndiv sum2 n1)))).
 Definition b_stddev (vs : list value) : value :=
   match vs with
   | [] | [_] => VNull
-  | _ => match stddev_collect vs (0, 0) [] with
-         | Some (sum, numbers) => match sqrt (stddev_radicand sum numbers) with Some r => vnum r | None => VNull end
+  | _ => match stddev_collect vs (Some (0, 0)) [] with
+         | Some (sum, numbers) => vopt (obind (stddev_radicand sum numbers) nsqrt)
          | None => VNull
          end
   end.
@@ -76,12 +75,11 @@ Definition pos_stddev (args : list value) : value :=
   | [_] => VNull
   | _ => b_stddev args
   end.
-End Stddev.
-(* the radicand of stddev(vs), for the correspondence check (the square root is taken outside) *)
+(* the radicand of stddev(vs) *)
 Definition stddev_radicand_of (vs : list value) : option (Z * Z) :=
   match vs with
   | [] | [_] => None
-  | _ => match stddev_collect vs (0, 0) [] with Some (sum, numbers) => Some (stddev_radicand sum numbers) | None => None end
+  | _ => match stddev_collect vs (Some (0, 0)) [] with Some (sum, numbers) => stddev_radicand sum numbers | None => None end
   end.
 
 (* ---------------- split / replace / matches on literal patterns ---------------- *)
